@@ -9,6 +9,9 @@ import (
 	"strings"
 )
 
+// ErrStoppedAfterHead is returned by ReadRawRequest when the afterHead callback asked not to read the body.
+var ErrStoppedAfterHead = errors.New("stopped after the request head")
+
 // HeaderField is one header line as received (name as written, value with optional whitespace trimmed).
 type HeaderField struct {
 	Name  string
@@ -78,8 +81,9 @@ func trunc(s string, n int) string {
 
 // ReadRawRequest reads one request from br. io.EOF is returned only when the stream ends cleanly before
 // the first byte of a request. afterHead (optional) is called once the head is parsed, before the body is
-// read (the origin uses it to answer "Expect: 100-continue").
-func ReadRawRequest(br *bufio.Reader, afterHead func(*RawRequest)) (*RawRequest, error) {
+// read (the origin uses it to answer "Expect: 100-continue"); when it returns true the body is not read and
+// ErrStoppedAfterHead is returned together with the head.
+func ReadRawRequest(br *bufio.Reader, afterHead func(*RawRequest) bool) (*RawRequest, error) {
 	line, err := readLine(br)
 	if err != nil {
 		if err == io.EOF && line == "" {
@@ -108,8 +112,8 @@ func ReadRawRequest(br *bufio.Reader, afterHead func(*RawRequest)) (*RawRequest,
 		}
 		r.Headers = append(r.Headers, f)
 	}
-	if afterHead != nil {
-		afterHead(r)
+	if afterHead != nil && afterHead(r) {
+		return r, ErrStoppedAfterHead
 	}
 	te := r.Get("Transfer-Encoding")
 	cl := r.Get("Content-Length")
